@@ -1,0 +1,26 @@
+//go:build verif
+
+// Contracts for the deductive verifier in /verif (govc). Comment-only.
+
+package bufioutil
+
+//@ globalinv errOutOfRange != nil
+//@ predicate bufOK(p *Buffer) bool = p != nil && p.index >= 0 && p.length == len(p.buf)
+//@ func Buffer.GetByte
+//@   prop C14
+//@   requires bufOK(p)
+//@   modifies p.index
+//@   ensures[in_range_reads_next_byte] old(p.index) < p.length ==> (err == nil && b == p.buf[old(p.index)] && p.index == old(p.index) + 1)
+//@   ensures[end_of_data] old(p.index) >= p.length ==> (err != nil && b == 0 && p.index == old(p.index))
+//@   ensures bufOK(p)
+//@ end
+//@ func Buffer.SetBuf
+//@   prop C14
+//@   modifies p.buf, p.index, p.length
+//@   ensures p.buf == s && p.index == 0 && p.length == len(s)
+//@ end
+//@ func Buffer.SetIdx
+//@   prop C14
+//@   modifies p.index
+//@   ensures p.index == idx
+//@ end
